@@ -153,6 +153,19 @@ func (w *World) siteVC(pkgPath string, only map[string]bool) (*VC, error) {
 								}
 							}
 						}
+					case "recvs":
+						switch x := in.(type) {
+						case *ssa.UnOp:
+							if x.Op == token.ARROW && chanClass(x.X) == subj {
+								add(fn, x.Pos())
+							}
+						case *ssa.Select:
+							for _, stt := range x.States {
+								if stt.Dir == types.RecvOnly && chanClass(stt.Chan) == subj {
+									add(fn, stt.Pos)
+								}
+							}
+						}
 					case "selectsends":
 						// every send on the channel is one case of a select that has
 						// another case or a default (it cannot block forever on its own)
